@@ -7,7 +7,9 @@ M   : spec/Voter.tla (design layer = voter.go vote path + vote_cache.go, crash p
         M_before_fix the design as it was coded before those commits, invariants as stated -> TLC's counterexamples are the
                      design-level argument for the fixes; they are exported and replayed on the real code, where they must
                      now pass (information only: this run never decides the exit code)
-G1  : every behaviour up to a length over a reduced alphabet (crash points included), printed as JSON.
+G1  : every behaviour up to a length over a reduced alphabet (crash points included: right before the first write, after
+      every write, after every post), printed as JSON.
+GV  : one shortest behaviour into every distinct design state right after a restart + first event (all reachable disks).
 G2  : `tlc -simulate` over the rich alphabet (3 rounds x 3 indices, certificate round, several crashes).
 T   : the driver `voter` steps every behaviour through the real ucon.Voter/VoteDB (exported constructor, crash-injecting
       database, restart = NewVoter on the same database); Voter_Mon (property layer, the verdict) and Voter_Trace
@@ -30,6 +32,7 @@ CONSTANTS
   Repair = %(Repair)s
   Mode = "%(Mode)s"
   MaxOps = %(MaxOps)d
+  GVAfter = %(GVAfter)d
   Weaken = %(Weaken)s
 %(tail)s
 CHECK_DEADLOCK FALSE
@@ -40,10 +43,12 @@ REPAIRS = '{"certReload", "replayMoves", "noBackward"}'
 
 
 def cfg(mode, **kw):
-    d = dict(MaxR=1, MaxI=2, MaxCrash=1, Cert="{}", QKinds=ALLK, MaxQ=2, Repair=REPAIRS, Mode=mode, MaxOps=0, Weaken="FALSE")
+    d = dict(MaxR=1, MaxI=2, MaxCrash=1, Cert="{}", QKinds=ALLK, MaxQ=2, Repair=REPAIRS, Mode=mode, MaxOps=0, Weaken="FALSE", GVAfter=1)
     d.update(kw)
     if mode == "M":
         d["head"], d["tail"] = "SPECIFICATION Spec", INVS
+    elif mode == "GV":
+        d["head"], d["tail"] = "SPECIFICATION Spec", "INVARIANT LeafV\nVIEW View"
     else:
         d["head"], d["tail"] = "INIT Init\nNEXT Next", "CONSTRAINT Leaf"
     return CFG % d
@@ -125,6 +130,20 @@ def generate(ctx):
         hs = [v["h"] for v in g.printed if isinstance(v, dict) and v.get("kind") == "B"]
         hs.sort(key=lambda h: json.dumps(h, sort_keys=True))
         cap = 6000 if quick else 60000
+        if len(hs) > cap:
+            rnd.shuffle(hs)
+            hs = hs[:cap]
+        behs += hs
+    # GV: one behaviour into every distinct state right after the restarted node processed its first event(s): every reachable
+    # combination of the five disk records (two rounds x two indices; certificate round) with every restart round and
+    # every vote-capable first event -- the restore logic of NewVoteDB depends on nothing else
+    gv = [("GV_rounds", dict(MaxR=2, MaxI=2, QKinds='{"Prevote"}', MaxQ=1, GVAfter=1 if quick else 2)),
+          ("GV_cert", dict(MaxI=2, Cert="{1}", QKinds='{"Prevote", "Precommit"}', MaxQ=2, GVAfter=1 if quick else 2))]
+    for name, kw in gv:
+        g = ctx.tlc_must("Voter", cfg("GV", **kw), name=name, timeout=1500, count=False)
+        hs = [v["h"] for v in g.printed if isinstance(v, dict) and v.get("kind") == "B"]
+        hs.sort(key=lambda h: json.dumps(h, sort_keys=True))
+        cap = 8000 if quick else 40000
         if len(hs) > cap:
             rnd.shuffle(hs)
             hs = hs[:cap]
